@@ -83,15 +83,27 @@ thread_local! {
     /// location). Panics inside tokio tasks are swallowed by the runtime, so
     /// this is the only place they surface.
     static PANICS: std::cell::RefCell<Vec<String>> = const { std::cell::RefCell::new(Vec::new()) };
+    /// Harness failures (self-checks, or plain panics raised from harness
+    /// source files) observed on this thread. Never a verdict: exit 2.
+    static HARNESS_FAILS: std::cell::RefCell<Vec<String>> = const { std::cell::RefCell::new(Vec::new()) };
 }
 
-/// Returns and clears the panics recorded on this thread.
+/// Returns and clears the panics recorded on this thread that were raised by
+/// the code under test (library or its dependencies) or by the spin sentinel.
 pub fn take_panics() -> Vec<String> {
     PANICS.with(|p| std::mem::take(&mut *p.borrow_mut()))
 }
 
+/// Returns and clears the harness failures recorded on this thread.
+pub fn take_harness_fails() -> Vec<String> {
+    HARNESS_FAILS.with(|p| std::mem::take(&mut *p.borrow_mut()))
+}
+
 /// Installs a panic hook that stays silent for panics raised inside runs
-/// (they are caught and classified) but still prints harness failures.
+/// (they are caught and classified). A panic is attributed by where it was
+/// raised: files of this crate (relative path `src/...`) are the harness -
+/// except for the spin sentinel, which the stubs raise on behalf of the code
+/// under test - everything else is the library or one of its dependencies.
 pub fn install_quiet_panic_hook() {
     std::panic::set_hook(Box::new(|info| {
         let msg = if let Some(s) = info.payload().downcast_ref::<&'static str>() {
@@ -101,10 +113,17 @@ pub fn install_quiet_panic_hook() {
         } else {
             String::new()
         };
-        if msg.starts_with(HARNESS_PANIC) {
-            eprintln!("harness failure: {} at {:?}", msg, info.location());
+        let file = info.location().map(|l| l.file().to_string()).unwrap_or_default();
+        let loc = info.location().map(|l| format!("{}:{}", l.file(), l.line())).unwrap_or_default();
+        let in_harness = file.starts_with("src/") || file.starts_with("sim/src/");
+        if msg.starts_with(HARNESS_PANIC) || (in_harness && !msg.starts_with(SPIN_PANIC)) {
+            HARNESS_FAILS.with(|p| {
+                let mut p = p.borrow_mut();
+                if p.len() < 16 {
+                    p.push(format!("{} at {}", msg, loc));
+                }
+            });
         } else {
-            let loc = info.location().map(|l| format!("{}:{}", l.file(), l.line())).unwrap_or_default();
             PANICS.with(|p| {
                 let mut p = p.borrow_mut();
                 if p.len() < 16 {
@@ -115,27 +134,35 @@ pub fn install_quiet_panic_hook() {
     }));
 }
 
+/// Turns a caught panic payload into a violation (library panic or spin);
+/// harness failures are re-raised.
+pub fn violation_from_panic(site: &str, p: Box<dyn Any + Send>) -> Violation {
+    let msg = panic_message(&p);
+    let recorded = take_panics();
+    if msg.starts_with(HARNESS_PANIC) || recorded.is_empty() && !msg.starts_with(SPIN_PANIC) {
+        // raised by the harness itself (the hook filed it under HARNESS_FAILS)
+        std::panic::resume_unwind(p);
+    }
+    if msg.starts_with(SPIN_PANIC) {
+        Violation::new(
+            "spin",
+            site,
+            format!("{}: code under test keeps polling/reading without progress (run-away guard tripped)", site),
+        )
+    } else {
+        let at = recorded.last().cloned().unwrap_or_default();
+        Violation::new("panic", site, format!("{}: panicked: {}", site, at))
+    }
+}
+
 /// Runs `f`, turning panics into violations: the spin sentinel becomes class
-/// `spin`, any other panic class `panic`. Harness self-check failures are
-/// re-raised.
+/// `spin`, a panic raised by the library or a dependency class `panic`.
+/// Harness failures are re-raised.
 pub fn guarded<T>(site: &str, f: impl FnOnce() -> Result<T, Violation>) -> Result<T, Violation> {
+    let _ = take_panics();
     match catch_unwind(AssertUnwindSafe(f)) {
         Ok(r) => r,
-        Err(p) => {
-            let msg = panic_message(&p);
-            if msg.starts_with(HARNESS_PANIC) {
-                std::panic::resume_unwind(p);
-            }
-            if msg.starts_with(SPIN_PANIC) {
-                Err(Violation::new(
-                    "spin",
-                    site,
-                    format!("{}: code under test keeps polling/reading without progress (run-away guard tripped)", site),
-                ))
-            } else {
-                Err(Violation::new("panic", site, format!("{}: panicked: {}", site, msg)))
-            }
-        }
+        Err(p) => Err(violation_from_panic(site, p)),
     }
 }
 
